@@ -443,7 +443,7 @@ class Gen:
                 for _ in range(r.randint(0, 3)):
                     t = r.choice(["long", "long", "int", "short", "tiny", "uint"])
                     dims = [] if r.random() < 0.7 or not o.arrays else [r.randint(1, 3) for _ in range(r.choice([1, 1, 2]))]
-                    flds.append((t if not dims else "long", dims))
+                    flds.append((t, dims))
                 sdefs.append((sn, flds))
             fld_s = lambda flds: " ".join(t if not d else "(%s %s)" % (t, " ".join(map(str, d))) for t, d in flds)
             menv["structs"] = []
@@ -461,9 +461,7 @@ class Gen:
                         continue
                     menv["scalars"].append((cell, t))
                     if t != "long":
-                        # a store into a narrow member is not range checked (finding C04-struct-member-unchecked): narrow members
-                        # get one in-range literal and are read-only for the generated statements
-                        menv["ro"].add(cell)
+                        # (stores into narrow members are range checked since fix a3f0b3d: they are ordinary targets now)
                         lo, hi = RANGES[t]
                         main.append("(asg (v %d) %d)" % (cell, r.choice([lo, hi, 0, 1, r.randint(lo, hi)])))
         if o.arrays:
